@@ -141,18 +141,30 @@ impl Event {
     }
 }
 
+/// second field: for every event the tag of the request whose future pushed it (`REQ_TAG`; None outside an overlapped run)
 #[derive(Clone, Default)]
-pub struct EventLog(pub Arc<Mutex<Vec<Event>>>);
+pub struct EventLog(pub Arc<Mutex<Vec<Event>>>, pub Arc<Mutex<Vec<Option<usize>>>>);
 
 impl EventLog {
     pub fn new() -> Self {
         Self::default()
     }
     pub fn push(&self, e: Event) {
-        self.0.lock().unwrap().push(e);
+        let tag = REQ_TAG.try_with(|t| t.0).ok();
+        let mut ev = self.0.lock().unwrap();
+        ev.push(e);
+        self.1.lock().unwrap().push(tag);
     }
     pub fn take(&self) -> Vec<Event> {
-        std::mem::take(&mut *self.0.lock().unwrap())
+        let mut ev = self.0.lock().unwrap();
+        self.1.lock().unwrap().clear();
+        std::mem::take(&mut *ev)
+    }
+    /// events with the tag of the request that caused them, in the order they were pushed
+    pub fn take_tagged(&self) -> Vec<(Option<usize>, Event)> {
+        let mut ev = self.0.lock().unwrap();
+        let tags = std::mem::take(&mut *self.1.lock().unwrap());
+        std::mem::take(&mut *ev).into_iter().enumerate().map(|(i, e)| (tags.get(i).copied().flatten(), e)).collect()
     }
     pub fn len(&self) -> usize {
         self.0.lock().unwrap().len()
@@ -239,6 +251,7 @@ impl Recorder {
     }
 
     pub async fn handle(&self, op: &'static str, meta: ReqMeta, mut input: AnyInput) -> S3Result<Answer> {
+        overlap_yield().await;
         let mut body = Vec::new();
         let mut chunks = Vec::new();
         let mut body_end = BodyEnd::NoBody;
@@ -269,6 +282,7 @@ impl Recorder {
                 body_end = BodyEnd::NotDrained;
             }
         }
+        overlap_yield().await;
         self.log.push(Event::Backend(Box::new(BackendEvent {
             op,
             cred: CredView::of(meta.credentials.as_ref()),
@@ -314,8 +328,10 @@ pub struct RecAuth {
 #[async_trait::async_trait]
 impl S3Auth for RecAuth {
     async fn get_secret_key(&self, access_key: &str) -> S3Result<SecretKey> {
+        overlap_yield().await;
         let found = self.keys.get(access_key);
         self.log.push(Event::AuthLookup { access_key: access_key.to_owned(), found: found.is_some() });
+        overlap_yield().await;
         match found {
             Some(s) => Ok(SecretKey::from(s.as_str())),
             None => Err(S3Error::with_message(S3ErrorCode::InvalidAccessKeyId, "verif: unknown access key")),
@@ -396,6 +412,7 @@ impl s3s::route::S3Route for RecRoute {
     }
 
     async fn check_access(&self, req: &mut S3Request<s3s::Body>) -> S3Result<()> {
+        overlap_yield().await;
         let cred = CredView::of(req.credentials.as_ref());
         let allowed = if self.default_check { cred.is_some() } else { self.allow };
         self.log.push(Event::RouteCheck { cred, allowed });
@@ -410,6 +427,7 @@ impl s3s::route::S3Route for RecRoute {
 
     async fn call(&self, req: S3Request<s3s::Body>) -> S3Result<S3Response<s3s::Body>> {
         use futures::StreamExt;
+        overlap_yield().await;
         let cred = CredView::of(req.credentials.as_ref());
         let mut body = Vec::new();
         let mut b = req.input;
@@ -807,7 +825,21 @@ pub fn call_http(rt: &tokio::runtime::Runtime, svc: &S3Service, req: http::Reque
 
 /// like `call_http`, but the consumer sleeps `lazy_ms` (virtual) milliseconds between frames
 pub fn call_http_lazy(rt: &tokio::runtime::Runtime, svc: &S3Service, req: http::Request<s3s::Body>, lazy_ms: u64) -> CallOutcome {
-    let fut = async {
+    let fut = serve_one(svc, req, lazy_ms);
+    // A generous virtual-time bound: with a paused clock a future that can only be woken by a
+    // timer auto-advances; a future that is Pending with no timer would block forever, which
+    // tokio's current-thread runtime reports by parking — guard with a virtual timeout.
+    rt.block_on(async {
+        match tokio::time::timeout(std::time::Duration::from_secs(3600), fut).await {
+            Ok(o) => o,
+            Err(_) => CallOutcome::Hang,
+        }
+    })
+}
+
+/// one request through the service, the response drained the way a server drains it
+pub async fn serve_one(svc: &S3Service, req: http::Request<s3s::Body>, lazy_ms: u64) -> CallOutcome {
+    {
         let t0 = tokio::time::Instant::now();
         let res = AssertUnwindSafe(svc.call(req)).catch_unwind().await;
         let resp = match res {
@@ -879,16 +911,7 @@ pub fn call_http_lazy(rt: &tokio::runtime::Runtime, svc: &S3Service, req: http::
             }
         }
         CallOutcome::Response(out)
-    };
-    // A generous virtual-time bound: with a paused clock a future that can only be woken by a
-    // timer auto-advances; a future that is Pending with no timer would block forever, which
-    // tokio's current-thread runtime reports by parking — guard with a virtual timeout.
-    rt.block_on(async {
-        match tokio::time::timeout(std::time::Duration::from_secs(3600), fut).await {
-            Ok(o) => o,
-            Err(_) => CallOutcome::Hang,
-        }
-    })
+    }
 }
 
 pub fn call_raw(rt: &tokio::runtime::Runtime, svc: &S3Service, req: &RawRequest) -> CallOutcome {
@@ -1016,6 +1039,275 @@ pub fn run_once(
     let svc = build_service(cfg, rec, &log);
     let out = call_raw(rt, &svc, req);
     (out, log.take())
+}
+
+
+// ---------------------------------------------------------------------------------------------
+// Overlap: several requests in flight at once on ONE service instance.  The properties quantify over requests,
+// not over "a request that has the service to itself": whatever a request is given when it is served alone
+// (response, hook events, identity, backend input, delivered bytes) it must be given when other requests are being
+// served at the same time.  Interleaved mode: all request futures are polled round-robin on the paused
+// current-thread runtime, every hook (auth lookup, route check, backend) and every body frame is a suspension point
+// with a seeded number of yields, so the interleaving is reproducible from the seed.  Parallel mode: the same futures
+// are spawned on a multi-thread runtime (real parallelism: check-then-act windows on shared state).
+// Every event is attributed to its request by a task-local tag.
+// ---------------------------------------------------------------------------------------------
+
+tokio::task_local! {
+    /// (tag of the request being served, state of its yield generator)
+    pub static REQ_TAG: (usize, std::cell::Cell<u64>);
+}
+
+/// inside an overlapped run: yield to the other requests 0..3 times (seeded); outside: nothing
+pub async fn overlap_yield() {
+    let k = REQ_TAG
+        .try_with(|t| {
+            let mut x = t.1.get();
+            let v = crate::core::splitmix(&mut x);
+            t.1.set(x);
+            v % 4
+        })
+        .unwrap_or(0);
+    for _ in 0..k {
+        tokio::task::yield_now().await;
+    }
+}
+
+pub fn new_parallel_runtime(workers: usize) -> tokio::runtime::Runtime {
+    tokio::runtime::Builder::new_multi_thread().worker_threads(workers).enable_time().build().expect("tokio runtime")
+}
+
+/// What one request was given: the comparison tuple of the overlap oracle.
+pub struct Observed {
+    pub class: String,
+    pub status: u16,
+    pub code: Option<String>,
+    /// success body without keep-alive padding (white space before the document / after the XML declaration)
+    pub success_body: Option<Vec<u8>>,
+    /// (method, input, delivered bytes, terminal state, access key, secret key)
+    pub backend: Vec<(String, AnyInput, Vec<u8>, String, Option<String>, Option<String>)>,
+    pub hook: Vec<String>,
+}
+
+impl Observed {
+    pub fn of(out: &CallOutcome, events: &[Event]) -> Self {
+        let (status, code, success_body) = match out.response() {
+            Some(r) if r.status >= 300 => (r.status, r.error_code(), None),
+            Some(r) => {
+                // keep-alive padding (CompleteMultipartUpload): white space before the document and between the XML
+                // declaration and the root element carries no meaning and depends on how long the backend took
+                let b = r.body();
+                let skip = b.iter().take_while(|c| c.is_ascii_whitespace()).count();
+                let mut b = b[skip..].to_vec();
+                if b.starts_with(b"<?xml") {
+                    if let Some(p) = b.windows(2).position(|w| w == b"?>") {
+                        let ws = b[p + 2..].iter().take_while(|c| c.is_ascii_whitespace()).count();
+                        b.drain(p + 2..p + 2 + ws);
+                    }
+                }
+                (r.status, None, Some(b))
+            }
+            None => (0, None, None),
+        };
+        Observed {
+            class: out.class(),
+            status,
+            code,
+            success_body,
+            backend: backend_events(events)
+                .iter()
+                .map(|b| (b.op.to_owned(), b.input.clone_without_blob(), b.body.clone(), format!("{:?}", b.body_end), b.cred.as_ref().map(|c| c.access_key.clone()), b.cred.as_ref().map(|c| c.secret_key.clone())))
+                .collect(),
+            hook: events
+                .iter()
+                .filter(|e| !matches!(e, Event::Backend(_)))
+                .map(|e| match e {
+                    Event::AccessCheck { cred, .. } | Event::AccessTyped { cred, .. } | Event::RouteCheck { cred, .. } | Event::RouteCall { cred, .. } => {
+                        format!("{} secret={:?}", e.brief(), cred.as_ref().map(|c| &c.secret_key))
+                    }
+                    _ => e.brief(),
+                })
+                .collect(),
+        }
+    }
+    /// None when equal, else which part differs
+    pub fn differs_from(&self, o: &Observed) -> Option<&'static str> {
+        if self.class != o.class || self.status != o.status || self.code != o.code {
+            return Some("response");
+        }
+        if self.hook != o.hook {
+            return Some("hook-events-or-identity");
+        }
+        if self.backend.len() != o.backend.len() || self.backend.iter().zip(&o.backend).any(|(a, b)| a.0 != b.0) {
+            return Some("backend-invocations");
+        }
+        if self.backend.iter().zip(&o.backend).any(|(a, b)| a.4 != b.4 || a.5 != b.5) {
+            return Some("backend-identity");
+        }
+        if self.backend.iter().zip(&o.backend).any(|(a, b)| a.2 != b.2 || a.3 != b.3) {
+            return Some("delivered-bytes");
+        }
+        if self.backend.iter().zip(&o.backend).any(|(a, b)| !a.1.diff(&b.1).is_empty()) {
+            return Some("backend-input");
+        }
+        if self.success_body != o.success_body {
+            return Some("response-body");
+        }
+        None
+    }
+    pub fn brief(&self) -> serde_json::Value {
+        serde_json::json!({"class": self.class, "status": self.status, "code": self.code,
+            "success_body": self.success_body.as_ref().map(|b| crate::core::show_bytes(&b[..b.len().min(200)])),
+            "backend": self.backend.iter().map(|b| format!("{} body={}B end={} cred={:?}", b.0, b.2.len(), b.3, b.4)).collect::<Vec<_>>(), "hook": self.hook})
+    }
+}
+
+/// Serves all `reqs` at once on one fresh service built from `cfg`; returns per request its outcome and the events
+/// its future caused, plus the events no request can be charged with (pushed from a task the service spawned).
+pub fn run_overlapped(
+    rt: &tokio::runtime::Runtime,
+    parallel: Option<&tokio::runtime::Runtime>,
+    cfg: &SvcCfg,
+    reqs: &[RawRequest],
+    seed: u64,
+) -> (Vec<(CallOutcome, Vec<Event>)>, usize, String) {
+    let log = EventLog::new();
+    let svc = build_service(cfg, Recorder::new(log.clone()), &log);
+    let built: Vec<Option<http::Request<s3s::Body>>> = reqs.iter().map(RawRequest::build).collect();
+    let one = |i: usize, req: Option<http::Request<s3s::Body>>, svc: S3Service| {
+        let mut s = crate::core::derive_seed(seed, "overlap", i as u64);
+        let _ = crate::core::splitmix(&mut s);
+        REQ_TAG.scope((i, std::cell::Cell::new(s)), async move {
+            match req {
+                None => CallOutcome::Unbuildable,
+                Some(r) => {
+                    overlap_yield().await;
+                    serve_one(&svc, r, 0).await
+                }
+            }
+        })
+    };
+    let outs: Vec<CallOutcome> = match parallel {
+        None => rt.block_on(async {
+            let all = futures::future::join_all(built.into_iter().enumerate().map(|(i, r)| one(i, r, svc.clone())));
+            match tokio::time::timeout(std::time::Duration::from_secs(3600), all).await {
+                Ok(v) => v,
+                Err(_) => (0..reqs.len()).map(|_| CallOutcome::Hang).collect(),
+            }
+        }),
+        Some(prt) => prt.block_on(async {
+            let handles: Vec<_> = built.into_iter().enumerate().map(|(i, r)| tokio::spawn(one(i, r, svc.clone()))).collect();
+            let mut v = Vec::new();
+            for h in handles {
+                v.push(match tokio::time::timeout(std::time::Duration::from_secs(120), h).await {
+                    Ok(Ok(o)) => o,
+                    Ok(Err(e)) => CallOutcome::Panic(format!("task: {e}")),
+                    Err(_) => CallOutcome::Hang,
+                });
+            }
+            v
+        }),
+    };
+    let mut per: Vec<Vec<Event>> = (0..reqs.len()).map(|_| Vec::new()).collect();
+    let mut stray = 0usize;
+    // the order in which the requests' events reached the log: the interleaving that was actually observed
+    let mut order = String::new();
+    for (tag, e) in log.take_tagged() {
+        if let Some(i) = tag {
+            order.push(char::from(b'a' + (i % 26) as u8));
+        }
+        match tag {
+            Some(i) if i < per.len() => per[i].push(e),
+            _ => stray += 1,
+        }
+    }
+    (outs.into_iter().zip(per).collect(), stray, order)
+}
+
+/// The overlap oracle: every request of the group must be given, in flight together with the others, what it is
+/// given alone on a fresh service.  `kinds[i]` names request i in cells and signatures.  Returns the number judged.
+#[allow(clippy::too_many_arguments)]
+pub fn judge_overlap(
+    r: &mut crate::core::Report,
+    prop: &str,
+    rt: &tokio::runtime::Runtime,
+    parallel: Option<&tokio::runtime::Runtime>,
+    cfg: &SvcCfg,
+    kinds: &[String],
+    reqs: &[RawRequest],
+    seed: u64,
+) {
+    let mode = if parallel.is_some() { "parallel" } else { "interleaved" };
+    let solo: Vec<Observed> = reqs
+        .iter()
+        .map(|q| {
+            let (o, ev) = session_suspended(|| run_once(rt, cfg, None, q));
+            Observed::of(&o, &ev)
+        })
+        .collect();
+    let (got, stray, order) = run_overlapped(rt, parallel, cfg, reqs, seed);
+    // a group whose events were not interleaved at all (a a a b b b) exercised nothing beyond a session
+    let switches = order.as_bytes().windows(2).filter(|w| w[0] != w[1]).count();
+    let distinct = { let mut b = order.clone().into_bytes(); b.sort_unstable(); b.dedup(); b.len() };
+    if switches >= distinct && distinct >= 2 {
+        r.count(&format!("overlap_groups_with_interleaved_events_{mode}"), 1);
+    }
+    r.observe("overlap_event_orders_seen", format!("{mode}:{order}"));
+    if stray > 0 {
+        // an event pushed outside every request future: attribution is not possible, say so rather than guess
+        r.inconclusive(format!("{stray} event(s) of an overlapped group could not be attributed to a request"));
+        return;
+    }
+    r.count(&format!("overlap_groups_{mode}"), 1);
+    r.count("overlap_requests_in_flight_together", reqs.len() as u64);
+    for (i, (out, ev)) in got.iter().enumerate() {
+        let seen = Observed::of(out, ev);
+        if matches!(out, CallOutcome::Hang) && parallel.is_some() {
+            r.inconclusive("overlapped request exceeded the wall-clock watchdog (parallel mode)");
+            continue;
+        }
+        match seen.differs_from(&solo[i]) {
+            None => {
+                let oc = if solo[i].status == 0 { solo[i].class.clone() } else if solo[i].status >= 400 { format!("error-{}", solo[i].code.clone().unwrap_or_default()) } else { "success".into() };
+                r.held(format!("overlap/{mode}/{}/{oc}", kinds[i]));
+            }
+            Some(what) => {
+                // a time-dependent verdict could flip between the two runs: re-run alone and abstain if the solo verdict itself moved
+                let (o2, ev2) = session_suspended(|| run_once(rt, cfg, None, &reqs[i]));
+                if Observed::of(&o2, &ev2).differs_from(&solo[i]).is_some() {
+                    r.inconclusive("solo outcome of a request is not reproducible");
+                    continue;
+                }
+                r.violated(
+                    format!("{prop}/outcome-differs-when-requests-overlap/{}/{what}", kinds[i].split('/').next().unwrap_or("")),
+                    serde_json::json!({"kind": "overlap", "mode": mode, "seed": seed, "index": i, "cfg": cfg, "kinds": kinds, "requests": reqs,
+                        "alone": solo[i].brief(), "in_flight_with_the_others": seen.brief()}),
+                );
+            }
+        }
+    }
+}
+
+/// replay of an overlap witness (all modes; parallel mode is repeated since its schedule is not reproducible)
+pub fn replay_overlap(prop: &str, w: &serde_json::Value) -> crate::core::Report {
+    let mut r = crate::core::Report::new();
+    let cfg: SvcCfg = serde_json::from_value(w["cfg"].clone()).unwrap_or_else(|e| crate::core::harness_error(&format!("bad cfg: {e}")));
+    let kinds: Vec<String> = serde_json::from_value(w["kinds"].clone()).unwrap_or_default();
+    let reqs: Vec<RawRequest> = serde_json::from_value(w["requests"].clone()).unwrap_or_else(|e| crate::core::harness_error(&format!("bad requests: {e}")));
+    let seed = w["seed"].as_u64().unwrap_or(0);
+    let rt = new_runtime();
+    if w["mode"] == "parallel" {
+        let prt = new_parallel_runtime(4);
+        for k in 0..200 {
+            judge_overlap(&mut r, prop, &rt, Some(&prt), &cfg, &kinds, &reqs, seed.wrapping_add(k));
+            if !r.violation_count.is_empty() {
+                break;
+            }
+        }
+    } else {
+        judge_overlap(&mut r, prop, &rt, None, &cfg, &kinds, &reqs, seed);
+    }
+    r
 }
 
 pub fn backend_events(events: &[Event]) -> Vec<&BackendEvent> {
